@@ -59,12 +59,24 @@ Theorem C14_nondev_not_locked : forall reg n d c o vs ch kvs f,
 Proof. exact nondev_not_locked_l. Qed.
 Print Assumptions C14_nondev_not_locked.
 
+(* "unless developer mode is explicit": the lock validator passes as soon as developer_mode is True *)
+Theorem C14_explicit_developer_mode_unlocks : forall gov f,
+  get_leaf "developer_mode" f = Some (JBool true) -> run_vid VDevMode gov f = None.
+Proof. exact explicit_developer_mode_unlocks_l. Qed.
+Print Assumptions C14_explicit_developer_mode_unlocks.
+
 (* non-vacuity: the lock does fire on the regenerated daily tree, two levels down, and the trees are well formed *)
 Example C14_lock_exact_nonvacuous :
   vtop reg t_DailySettings [("split_selection", JObj [("penalty_power", JNum 3)])] = Reject RDeveloper /\
+  (exists s, vtop reg t_DailySettings [("developer_mode", JBool true); ("split_selection", JObj [("penalty_power", JNum 3)])] = Accept s) /\
   wf_children children_DailySettings = true /\ wf_children children_DailyLegacySettings = true /\
   wf_children children_BillingSettings = true.
-Proof. repeat split; vm_compute; reflexivity. Qed.
+Proof.
+  split; [vm_compute; reflexivity|]. split.
+  - exists (the (vtop reg t_DailySettings [("developer_mode", JBool true); ("split_selection", JObj [("penalty_power", JNum 3)])])).
+    vm_compute. reflexivity.
+  - split; [|split]; vm_compute; reflexivity.
+Qed.
 
 (* non-vacuity: a nested open override on the regenerated daily tree is accepted without developer mode and a
    developer leaf two levels down is reachable *)
@@ -223,14 +235,13 @@ Print Assumptions C14_hourly_trees_have_no_lock.
 
 (* build -> store -> reload, exhaustive inside Coq over every leaf x every model-side alternative (developer leaves
    overridden in developer mode, open leaves without it), on the regenerated trees:
-     current daily model, both billing models : every accepted construction reloads, and the reloaded settings dump
+     current daily model, BillingModel        : every accepted construction reloads, and the reloaded settings dump
                                                 to the record;
      DailyModel(model="legacy")               : exactly the models built in developer mode reload; every other record
                                                 is refused by the lock of the current defaults (D6, C14-K2) *)
 Theorem C14_stored_reload_enumerated :
   all_reloads_ok reg SameRecord (CDailyModel "current") t_DailySettings = true /\
   all_reloads_ok reg LockedOutUnlessDev (CDailyModel "legacy") t_DailyLegacySettings = true /\
-  all_reloads_ok reg SameRecord CBillingModel t_DailyLegacySettings = true /\
-  all_reloads_ok reg SameRecord CBillingWeighted t_BillingSettings = true.
-Proof. split; [|split; [|split]]; vm_cast_no_check (eq_refl true). Qed.
+  all_reloads_ok reg SameRecord CBillingModel t_DailyLegacySettings = true.
+Proof. split; [|split]; vm_cast_no_check (eq_refl true). Qed.
 Print Assumptions C14_stored_reload_enumerated.
